@@ -64,10 +64,37 @@ package chk
 //@ pred allInS(m map[string]*client.OpResult, res []*client.OpResult, n Int) = forall k in dom(m) :: inRes(res, n, m[k])
 //@ pred wantFound(res []*client.OpResult, want *client.OpResult, opt []resultOpt) = exists i in 0..len(res) :: wantMatches(res[i], want, opt)
 
+
+// Completeness of the cached checker ("agrees with the plain one whenever result keys are unique"). cmp.Equal is an uninterpreted
+// predicate here, so "the want is present" is stated together with what a match implies for the fields the caches are keyed by:
+// equal operation ids when they are compared, equal details otherwise (strongFound). keyClass: which cache a result is filed in.
+//@ pred keyClass(d *client.OpDetailsResults) = ite(d.NextHopGroupID != 0, 1, ite(d.NextHopIndex != 0, 2, ite(d.IPv4Prefix != "", 3, ite(d.IPv6Prefix != "", 4, ite(d.MPLSLabel != 0, 5, 0)))))
+//@ pred agreeDetails(r *client.OpResult, w *client.OpResult) = r.Details != nil && r.Details.NextHopGroupID == w.Details.NextHopGroupID && r.Details.NextHopIndex == w.Details.NextHopIndex
+//@   && r.Details.IPv4Prefix == w.Details.IPv4Prefix && r.Details.IPv6Prefix == w.Details.IPv6Prefix && r.Details.MPLSLabel == w.Details.MPLSLabel
+//@ pred strongFound(res []*client.OpResult, want *client.OpResult, opt []resultOpt) = exists i in 0..len(res) :: wantMatches(res[i], want, opt)
+//@   && ite(optIgnoreID(opt), agreeDetails(res[i], want), res[i].OperationID == want.OperationID)
+//@ pred uniqueByID(res []*client.OpResult) = forall i in 0..len(res), j in 0..len(res) :: i != j ==> res[i].OperationID != res[j].OperationID
+//@ pred sameKey(a *client.OpDetailsResults, b *client.OpDetailsResults) = keyClass(a) == keyClass(b) && keyClass(a) != 0 && (keyClass(a) == 1 ==> a.NextHopGroupID == b.NextHopGroupID)
+//@   && (keyClass(a) == 2 ==> a.NextHopIndex == b.NextHopIndex) && (keyClass(a) == 3 ==> a.IPv4Prefix == b.IPv4Prefix) && (keyClass(a) == 4 ==> a.IPv6Prefix == b.IPv6Prefix) && (keyClass(a) == 5 ==> a.MPLSLabel == b.MPLSLabel)
+//@ pred uniqueByKey(res []*client.OpResult) = forall i in 0..len(res), j in 0..len(res) :: i != j && res[i].Details != nil && res[j].Details != nil ==> !sameKey(res[i].Details, res[j].Details)
+//@ pred idKeyed(m map[uint64]*client.OpResult) = forall k in dom(m) :: m[k] != nil && m[k].OperationID == k
+//@ pred keyed_byNHGID(m map[uint64]*client.OpResult) = forall k in dom(m) :: m[k] != nil && m[k].Details != nil && keyClass(m[k].Details) == 1 && m[k].Details.NextHopGroupID == k
+//@ pred keyed_byNHID(m map[uint64]*client.OpResult) = forall k in dom(m) :: m[k] != nil && m[k].Details != nil && keyClass(m[k].Details) == 2 && m[k].Details.NextHopIndex == k
+//@ pred keyed_byIPv4Prefix(m map[string]*client.OpResult) = forall k in dom(m) :: m[k] != nil && m[k].Details != nil && keyClass(m[k].Details) == 3 && m[k].Details.IPv4Prefix == k
+//@ pred keyed_byIPv6Prefix(m map[string]*client.OpResult) = forall k in dom(m) :: m[k] != nil && m[k].Details != nil && keyClass(m[k].Details) == 4 && m[k].Details.IPv6Prefix == k
+//@ pred keyed_byMPLSLabel(m map[uint64]*client.OpResult) = forall k in dom(m) :: m[k] != nil && m[k].Details != nil && keyClass(m[k].Details) == 5 && m[k].Details.MPLSLabel == k
 //@ unit HasResultsCache
 //@ requires !fatal && tagof(t) != 0
 //@ requires[non-nil] (forall i in 0..len(res) :: res[i] != nil) && (forall j in 0..len(wants) :: wants[j] != nil)
 //@ ensures[never-vacuous] !fatal ==> forall j in 0..len(wants) :: wantFound(res, wants[j], opt)
+//@ ensures[complete-when-unique] ite(optIgnoreID(opt), uniqueByKey(res) && (forall j in 0..len(wants) :: wants[j].Details != nil), uniqueByID(res))
+//@   && (forall j in 0..len(wants) :: strongFound(res, wants[j], opt)) ==> !fatal
+//@ loop 1 invariant[caches-keyed] idKeyed(byOpID) && keyed_byNHGID(byNHGID) && keyed_byNHID(byNHID) && keyed_byIPv4Prefix(byIPv4Prefix) && keyed_byIPv6Prefix(byIPv6Prefix) && keyed_byMPLSLabel(byMPLSLabel)
+//@ loop 1 invariant[caches-complete] forall i in 0..loopi :: res[i].OperationID in dom(byOpID) && (res[i].Details != nil ==> (keyClass(res[i].Details) == 1 ==> res[i].Details.NextHopGroupID in dom(byNHGID)) && (keyClass(res[i].Details) == 2 ==> res[i].Details.NextHopIndex in dom(byNHID)) && (keyClass(res[i].Details) == 3 ==> res[i].Details.IPv4Prefix in dom(byIPv4Prefix)) && (keyClass(res[i].Details) == 4 ==> res[i].Details.IPv6Prefix in dom(byIPv6Prefix)) && (keyClass(res[i].Details) == 5 ==> res[i].Details.MPLSLabel in dom(byMPLSLabel)))
+//@ loop 2 invariant[caches-keyed] idKeyed(byOpID)
+//@ loop 2 invariant[caches-complete] forall i in 0..len(res) :: res[i].OperationID in dom(byOpID)
+//@ loop 3 invariant[caches-keyed] keyed_byNHGID(byNHGID) && keyed_byNHID(byNHID) && keyed_byIPv4Prefix(byIPv4Prefix) && keyed_byIPv6Prefix(byIPv6Prefix) && keyed_byMPLSLabel(byMPLSLabel)
+//@ loop 3 invariant[caches-complete] forall i in 0..len(res) :: res[i].OperationID in dom(byOpID) && (res[i].Details != nil ==> (keyClass(res[i].Details) == 1 ==> res[i].Details.NextHopGroupID in dom(byNHGID)) && (keyClass(res[i].Details) == 2 ==> res[i].Details.NextHopIndex in dom(byNHID)) && (keyClass(res[i].Details) == 3 ==> res[i].Details.IPv4Prefix in dom(byIPv4Prefix)) && (keyClass(res[i].Details) == 4 ==> res[i].Details.IPv6Prefix in dom(byIPv6Prefix)) && (keyClass(res[i].Details) == 5 ==> res[i].Details.MPLSLabel in dom(byMPLSLabel)))
 //@ loop 1 at "range res" invariant allIn(byOpID, res, loopi) && allIn(byNHID, res, loopi) && allIn(byNHGID, res, loopi) && allIn(byMPLSLabel, res, loopi)
 //@ loop 1 invariant allInS(byIPv4Prefix, res, loopi) && allInS(byIPv6Prefix, res, loopi) && !fatal
 //@ loop 1 invariant byOpID != nil && byNHID != nil && byNHGID != nil && byMPLSLabel != nil && byIPv4Prefix != nil && byIPv6Prefix != nil
@@ -99,12 +126,21 @@ package chk
 //@ pred nhSound(m map[uint64]*spb.AFTEntry, ni string, E []*spb.AFTEntry, n Int) = forall k in dom(m) :: exists i in 0..n ::
 //@   E[i] != nil && E[i].NetworkInstance == ni && istype(E[i].Entry, *spb.AFTEntry_NextHop) && E[i].GetNextHop().GetIndex() == k
 
+
+// indexed (completeness of the index): every response entry seen so far that carries a usable key (non-zero id / index, non-empty
+// prefix, a uint64 label) is filed under its network instance in the index of its kind.
+// wantUsable: the wanted entry converts, names a network instance and carries a usable key of one of the five kinds.
+//@ pred wantUsableProto(W *spb.AFTEntry) = W.GetNetworkInstance() != "" && ((istype(W.Entry, *spb.AFTEntry_Ipv4) && W.GetIpv4().GetPrefix() != "") || (istype(W.Entry, *spb.AFTEntry_Ipv6) && W.GetIpv6().GetPrefix() != "") || (istype(W.Entry, *spb.AFTEntry_NextHopGroup) && W.GetNextHopGroup().GetId() != 0) || (istype(W.Entry, *spb.AFTEntry_NextHop) && W.GetNextHop().GetIndex() != 0) || istype(W.Entry, *spb.AFTEntry_Mpls))
+//@ pred wantUsable(w fluent.GRIBIEntry) = !entryProtoFails(w) && wantUsableProto(entryProtoOf(w))
 //@ unit GetResponseHasEntries
 //@ requires !fatal && tagof(t) != 0
 //@ requires[wire-valid] forall i in 0..len(getres.GetEntry()) :: getres.GetEntry()[i] != nil && oneofOK(getres.GetEntry()[i].Entry)
 //@    && (getres.GetEntry()[i].GetMpls() != nil ==> oneofOK(getres.GetEntry()[i].GetMpls().Label))
 //@ requires[wants] forall j in 0..len(wants) :: tagof(wants[j]) != 0
 //@ ensures[never-vacuous] !fatal ==> forall j in 0..len(wants) :: foundIn(getres.GetEntry(), len(getres.GetEntry()), entryProtoOf(wants[j]))
+//@ ensures[complete] (forall j in 0..len(wants) :: wantUsable(wants[j]) && foundIn(getres.GetEntry(), len(getres.GetEntry()), entryProtoOf(wants[j]))) ==> !fatal
+//@ loop 1 invariant[index-complete] forall i in 0..loopi :: ranged[i].NetworkInstance in dom(netinsts) && (istype(ranged[i].Entry, *spb.AFTEntry_Ipv4) && ranged[i].GetIpv4().GetPrefix() != "" ==> ranged[i].GetIpv4().GetPrefix() in dom(netinsts[ranged[i].NetworkInstance].ipv4)) && (istype(ranged[i].Entry, *spb.AFTEntry_Ipv6) && ranged[i].GetIpv6().GetPrefix() != "" ==> ranged[i].GetIpv6().GetPrefix() in dom(netinsts[ranged[i].NetworkInstance].ipv6)) && (istype(ranged[i].Entry, *spb.AFTEntry_NextHopGroup) && ranged[i].GetNextHopGroup().GetId() != 0 ==> ranged[i].GetNextHopGroup().GetId() in dom(netinsts[ranged[i].NetworkInstance].nhg)) && (istype(ranged[i].Entry, *spb.AFTEntry_NextHop) && ranged[i].GetNextHop().GetIndex() != 0 ==> ranged[i].GetNextHop().GetIndex() in dom(netinsts[ranged[i].NetworkInstance].nh)) && (istype(ranged[i].Entry, *spb.AFTEntry_Mpls) && istype(ranged[i].GetMpls().GetLabel(), *aftpb.Afts_LabelEntryKey_LabelUint64) ==> ranged[i].GetMpls().GetLabelUint64() in dom(netinsts[ranged[i].NetworkInstance].mpls))
+//@ loop 2 invariant[index-complete] forall i in 0..len(getres.GetEntry()) :: getres.GetEntry()[i].NetworkInstance in dom(netinsts) && (istype(getres.GetEntry()[i].Entry, *spb.AFTEntry_Ipv4) && getres.GetEntry()[i].GetIpv4().GetPrefix() != "" ==> getres.GetEntry()[i].GetIpv4().GetPrefix() in dom(netinsts[getres.GetEntry()[i].NetworkInstance].ipv4)) && (istype(getres.GetEntry()[i].Entry, *spb.AFTEntry_Ipv6) && getres.GetEntry()[i].GetIpv6().GetPrefix() != "" ==> getres.GetEntry()[i].GetIpv6().GetPrefix() in dom(netinsts[getres.GetEntry()[i].NetworkInstance].ipv6)) && (istype(getres.GetEntry()[i].Entry, *spb.AFTEntry_NextHopGroup) && getres.GetEntry()[i].GetNextHopGroup().GetId() != 0 ==> getres.GetEntry()[i].GetNextHopGroup().GetId() in dom(netinsts[getres.GetEntry()[i].NetworkInstance].nhg)) && (istype(getres.GetEntry()[i].Entry, *spb.AFTEntry_NextHop) && getres.GetEntry()[i].GetNextHop().GetIndex() != 0 ==> getres.GetEntry()[i].GetNextHop().GetIndex() in dom(netinsts[getres.GetEntry()[i].NetworkInstance].nh)) && (istype(getres.GetEntry()[i].Entry, *spb.AFTEntry_Mpls) && istype(getres.GetEntry()[i].GetMpls().GetLabel(), *aftpb.Afts_LabelEntryKey_LabelUint64) ==> getres.GetEntry()[i].GetMpls().GetLabelUint64() in dom(netinsts[getres.GetEntry()[i].NetworkInstance].mpls))
 //@ loop 1 at "range getres.GetEntry()" invariant !fatal && netinsts != nil && (forall n in dom(netinsts) :: netinsts[n] != nil && netinsts[n].ipv4 != nil
 //@    && netinsts[n].ipv6 != nil && netinsts[n].mpls != nil && netinsts[n].nhg != nil && netinsts[n].nh != nil
 //@    && netinsts[n].ipv4 != netinsts[n].ipv6 && netinsts[n].mpls != netinsts[n].nhg && netinsts[n].mpls != netinsts[n].nh && netinsts[n].nhg != netinsts[n].nh)
